@@ -193,6 +193,8 @@ class Model:
         fd, path = tempfile.mkstemp(suffix='.nc', dir=workdir)
         os.close(fd)
         ds.to_netcdf(path)
+        if rng.random() < 0.3:
+            return xarray.open_dataset(path, chunks={}), 'disk'      # dask-backed (lazy, chunked) variables
         return xarray.open_dataset(path), 'disk'
 
     # ---- description ---------------------------------------------------------------
